@@ -68,8 +68,9 @@ def unit_level(ctx):
                 slot.timex_str = 'XXXX-05-05'
                 v = DateTimeResolutionResult()
                 v.timex = slot.timex_str
-                v.future_resolution = {t: f}
-                v.past_resolution = {t: p}
+                key = {'date': 'date', 'time': 'time', 'datetime': 'dateTime'}[t]
+                v.future_resolution = {key: f}
+                v.past_resolution = {key: p}
                 slot.value = v
                 try:
                     res = parser._date_time_resolution(slot, False, False, False)
